@@ -265,6 +265,19 @@ func (i *interpreter) callVX(fr *frame, fn *ssa.Function, args []value) value {
 		return i.mk(i.tb.Ite(i.lift(args[0]), i.lift(args[1]), i.lift(args[2])), types.Int)
 	case "B2I":
 		return i.mk(i.tb.Ite(i.lift(args[0]), i.tb.BVConst(1, 64), i.tb.BVConst(0, 64)), types.Int)
+	case "ModelCSVWriter":
+		i.ps.csvModel = true
+		i.ps.csvRecords = nil
+		return nil
+	case "RealDigits":
+		i.ps.realDigits = true
+		return nil
+	case "CSVRecords":
+		out := make([]value, len(i.ps.csvRecords))
+		for k, r := range i.ps.csvRecords {
+			out[k] = append([]value{}, r...)
+		}
+		return out
 	case "ConstrainHash":
 		i.ps.hashBits = int(i.concInt(args[0]))
 		i.ps.hashAllowed = nil
